@@ -825,7 +825,7 @@ class Client:
         starting_handle = 0x0001
         ending_handle = 0xFFFF
         attributes = []
-        while True:
+        while starting_handle <= ending_handle:
             response = await self.send_request(
                 att.ATT_Find_Information_Request(
                     starting_handle=starting_handle, ending_handle=ending_handle
@@ -845,6 +845,10 @@ class Client:
                     return []
                 break
 
+            # Stop if for some reason the list was empty
+            if not response.information:
+                break
+
             for attribute_handle, attribute_uuid in response.information:
                 if attribute_handle < starting_handle:
                     # Something's not right
@@ -857,7 +861,7 @@ class Client:
                 attributes.append(attribute)
 
             # Move on to the next attributes
-            starting_handle = attributes[-1].handle + 1
+            starting_handle = response.information[-1][0] + 1
 
         return attributes
 
